@@ -71,7 +71,7 @@ def point_of(fs, i, j, size):
         # horizontal >= 0 away from the ridge, vertical <= 0 (below the surface)
         # the ridge axis (horizontal = 0) and the surface (vertical = 0) belong to the domain;
         # only the singular origin is avoided
-        x[i] = abs(p[0]) * size
+        x[i] = p[0] * size  # both sides of the ridge axis (the flow is mirror-symmetric)
         x[j] = -abs(p[1]) * size
         if math.hypot(x[i], x[j]) < 1e-6 * size:
             x[j] = -1e-3 * size
